@@ -6,6 +6,8 @@ mod util;
 mod omap;
 mod search;
 mod grid;
+mod scc;
+mod cost;
 
 fn main() {
     let args: Vec<String> = std::env::args().collect();
@@ -18,6 +20,8 @@ fn main() {
         "omap" => omap::main(rest),
         "search" => search::main(rest),
         "grid" => grid::main(rest),
+        "scc" => scc::main(rest),
+        "cost" => cost::main(rest),
         other => {
             eprintln!("unknown subcommand {}", other);
             2
